@@ -79,6 +79,9 @@ func (g *gen) execCall(instr ssa.Instruction, c *ssa.CallCommon, v ssa.Value, st
 		if mc, ok := g.closures[c.Value]; ok {
 			callee = mc.Fn.(*ssa.Function)
 			bindings = mc.Bindings
+		} else if fn := returnedClosure(c.Value); fn != nil {
+			// the value is the result of calling a function whose every return is a closure of one anonymous function
+			callee = fn
 		}
 	} else if callee != nil {
 		if mc, ok := c.Value.(*ssa.MakeClosure); ok {
@@ -117,11 +120,39 @@ func (g *gen) execCall(instr ssa.Instruction, c *ssa.CallCommon, v ssa.Value, st
 		}
 	}
 	if c.IsInvoke() {
-		if con := g.P.contracts["invoke "+g.P.relType(c.Value.Type())+"."+c.Method.Name()]; con != nil {
+		if con := g.P.getContract("invoke "+g.P.relType(c.Value.Type())+"."+c.Method.Name()); con != nil {
 			res := g.contractCallGeneric(instr, con, c.Method.Type().(*types.Signature), append([]string{g.val(st, c.Value)}, args...), append([]types.Type{c.Value.Type()}, paramTypes(c.Method.Type().(*types.Signature))...), paramNames(c.Method.Type().(*types.Signature), "recv"), st, name)
 			g.setResults(v, res)
 			g.afterCall(instr, sig, v, st)
 			return
+		}
+	}
+	// dynamic call of a value whose named function type has a contract (assumed for every value of the type;
+	// each concrete function converted to the type is checked against it at the conversion site)
+	if callee == nil && !c.IsInvoke() {
+		ftName := ""
+		var fsig *types.Signature
+		if nt, ok := c.Value.Type().(*types.Named); ok {
+			ftName = nt.Obj().Name()
+			fsig, _ = nt.Underlying().(*types.Signature)
+		} else if fld := fieldOrigin(c.Value); fld != "" {
+			ftName = fld
+			fsig, _ = c.Value.Type().Underlying().(*types.Signature)
+		}
+		if ftName != "" && fsig != nil {
+			if con := g.P.getContract("functype "+ftName); con != nil {
+				var names []string
+				for i := 0; i < fsig.Params().Len(); i++ {
+					names = append(names, fsig.Params().At(i).Name())
+				}
+				if g.opts.safety {
+					g.obligeAssume("nil", "call of "+g.exprText(c.Value), instr.Pos(), sNot(sEq(g.val(st, c.Value), "0")), nil)
+				}
+				res := g.contractCallGeneric(instr, con, fsig, args, paramTypes(fsig), names, st, "functype "+ftName)
+				g.setResults(v, res)
+				g.afterCall(instr, sig, v, st)
+				return
+			}
 		}
 	}
 	// inferred summaries (frame inference)
@@ -446,6 +477,9 @@ func (g *gen) contractCallGeneric(instr ssa.Instruction, con *Contract, sig *typ
 	// 1. preconditions
 	if g.opts.functional || g.opts.safety {
 		for _, r := range con.Requires {
+			if mentionsGhost(con, r.Expr) {
+				continue // logical variables of the callee: not the caller's business
+			}
 			lbl := r.Label
 			if lbl == "" {
 				lbl = r.Text
@@ -460,7 +494,23 @@ func (g *gen) contractCallGeneric(instr ssa.Instruction, con *Contract, sig *typ
 	}
 	// 3. effect
 	preTop := st.top
-	readonly := con.flag("pure") || (len(mods) == 0 && !g.exposesHeap(sig))
+	calleeRO := ""
+	if con.ReadonlyIf != nil {
+		calleeRO = g.specBool(pre, con.ReadonlyIf.Expr)
+		if g.opts.frames {
+			// the callee may write any document node when its condition is false: the caller must be allowed to
+			callerOK := "false"
+			if c := g.roCond(); c != "" {
+				callerOK = sNot(c)
+			} else if g.con == nil || g.con.flag("noframe") {
+				callerOK = "true"
+			} else if !g.frameChecked("H.yqlib.CandidateNode.Value") {
+				callerOK = "true"
+			}
+			g.oblige("frame-call", "call "+cname+" is read-only only if "+con.ReadonlyIf.Text, instr.Pos(), sOr(calleeRO, callerOK), nil)
+		}
+	}
+	readonly := con.flag("pure") || (len(mods) == 0 && !g.exposesHeap(sig) && calleeRO == "")
 	if !readonly {
 		g.newEpoch(st, func(name, r string) string {
 			if r == "" {
@@ -471,8 +521,20 @@ func (g *gen) contractCallGeneric(instr ssa.Instruction, con *Contract, sig *typ
 				}
 				return "true"
 			}
+			_ = calleeRO
+			if con.flag("docframe-only") && !g.isDocHeap(name) {
+				// an inferred summary promises nothing about lists, contexts, expression nodes — except that it
+				// cannot reach what the caller never let out
+				return g.privateKeep(name, r)
+			}
 			conds := []string{app("<=", r, preTop)}
 			strong := false
+			if calleeRO != "" && g.condFramed(name) {
+				if calleeRO != "true" {
+					conds = append(conds, calleeRO)
+					strong = true
+				}
+			}
 			for _, m := range mods {
 				if m.heap == name {
 					conds = append(conds, sNot(m.member(r)))
@@ -500,6 +562,9 @@ func (g *gen) contractCallGeneric(instr ssa.Instruction, con *Contract, sig *typ
 		post.resNames = append(post.resNames, sig.Results().At(i).Name())
 	}
 	for _, en := range con.Ensures {
+		if mentionsGhost(con, en.Expr) {
+			continue
+		}
 		g.assume(g.specBool(post, en.Expr))
 	}
 	return res
@@ -654,8 +719,11 @@ func (g *gen) callerMods() []modClause {
 
 // frameChecked: is this heap variable subject to frame checking in the current mode?
 func (g *gen) frameChecked(name string) bool {
-	if strings.HasPrefix(name, "IT.") || strings.HasPrefix(name, "GHOST.") {
+	if strings.HasPrefix(name, "IT.") || strings.HasPrefix(name, "GHOST.") || strings.HasPrefix(name, "ITER.") {
 		return false
+	}
+	if g.con != nil && g.con.flag("docframe-only") {
+		return g.isDocHeap(name)
 	}
 	if g.con != nil && !g.con.flag("noframe") {
 		return true
@@ -676,6 +744,9 @@ func (g *gen) frameObject(st *state, name, obj string, instr ssa.Instruction, wh
 		if m.heap == name {
 			allowed = append(allowed, m.member(obj))
 		}
+	}
+	if c := g.roCond(); c != "" && g.condFramed(name) {
+		allowed = append(allowed, sNot(c))
 	}
 	g.oblige("frame", what, instr.Pos(), sOr(allowed...), nil)
 }
@@ -708,28 +779,41 @@ func (g *gen) frameStore(st *state, l *loc, x *ssa.Store) {
 
 // frameCall: everything the callee may modify among pre-existing objects must be allowed for the caller.
 func (g *gen) frameCall(instr ssa.Instruction, cname string, mods []modClause, pre *state) {
+	// one obligation per modifies clause (a clause such as x.all covers many heap variables)
+	var order []string
+	byText := map[string][]string{}
 	for _, m := range mods {
 		if !g.frameChecked(m.heap) {
 			continue
 		}
+		var cond string
 		if m.scalar {
-			ok := "false"
+			cond = "false"
 			for _, cm := range g.callerMods() {
 				if cm.heap == m.heap {
-					ok = "true"
+					cond = "true"
 				}
 			}
-			g.oblige("frame-call", "call "+cname+" modifies "+m.text, instr.Pos(), ok, nil)
-			continue
-		}
-		sk := g.newConst("sk.obj", "Int")
-		allowed := []string{app(">", sk, g.top0)}
-		for _, cm := range g.callerMods() {
-			if cm.heap == m.heap {
-				allowed = append(allowed, cm.member(sk))
+		} else {
+			sk := g.newConst("sk.obj", "Int")
+			allowed := []string{app(">", sk, g.top0), sEq(sk, "0")}
+			for _, cm := range g.callerMods() {
+				if cm.heap == m.heap {
+					allowed = append(allowed, cm.member(sk))
+				}
 			}
+			if c := g.roCond(); c != "" && g.condFramed(m.heap) {
+				allowed = append(allowed, sNot(c))
+			}
+			cond = sImp(m.member(sk), sOr(allowed...))
 		}
-		g.oblige("frame-call", "call "+cname+" modifies "+m.text, instr.Pos(), sImp(m.member(sk), sOr(allowed...)), nil)
+		if _, ok := byText[m.text]; !ok {
+			order = append(order, m.text)
+		}
+		byText[m.text] = append(byText[m.text], cond)
+	}
+	for _, t := range order {
+		g.oblige("frame-call", "call "+cname+" modifies "+t, instr.Pos(), sAnd(byText[t]...), nil)
 	}
 }
 
@@ -747,7 +831,7 @@ func (g *gen) summaryCall(instr ssa.Instruction, callee *ssa.Function, st *state
 			}
 			return "weak"
 		}
-		return "false"
+		return g.privateKeep(name, r)
 	}, true)
 	for a := range st.cells {
 		if g.escaped[a] {
@@ -791,6 +875,9 @@ func (g *gen) callEffects(c *ssa.CallCommon, ef *effects) {
 		if me.allocates {
 			ef.allocates = true
 		}
+		if me.nonDoc {
+			ef.allNonDoc = true
+		}
 		if g.opts.errprop {
 			ef.strong["GHOST.err"] = true
 		}
@@ -810,7 +897,7 @@ func (g *gen) callEffects(c *ssa.CallCommon, ef *effects) {
 	if callee != nil {
 		con = g.P.contractFor(callee)
 	} else if c.IsInvoke() {
-		con = g.P.contracts["invoke "+g.P.relType(c.Value.Type())+"."+c.Method.Name()]
+		con = g.P.getContract("invoke "+g.P.relType(c.Value.Type())+"."+c.Method.Name())
 	}
 	if con != nil {
 		ef.allocates = true
@@ -821,6 +908,14 @@ func (g *gen) callEffects(c *ssa.CallCommon, ef *effects) {
 			for _, h := range g.modHeapNames(m, callee) {
 				ef.strong[h] = true
 			}
+		}
+		if con.ReadonlyIf != nil {
+			for _, h := range g.docHeapNames() {
+				ef.strong[h] = true
+			}
+		}
+		if con.flag("docframe-only") {
+			ef.allNonDoc = true
 		}
 		return
 	}
@@ -960,4 +1055,116 @@ func (g *gen) exposesHeap(sig *types.Signature) bool {
 		}
 	}
 	return false
+}
+
+func mentionsGhost(con *Contract, x ast.Expr) bool {
+	if len(con.Ghosts) == 0 {
+		return false
+	}
+	found := false
+	var visit func(n ast.Node) bool
+	seenLets := map[string]bool{}
+	visit = func(n ast.Node) bool {
+		if id, ok := n.(*ast.Ident); ok {
+			for _, gname := range con.Ghosts {
+				if id.Name == gname {
+					found = true
+				}
+			}
+			if le, ok := con.Lets[id.Name]; ok && !seenLets[id.Name] {
+				seenLets[id.Name] = true
+				ast.Inspect(le, visit)
+			}
+		}
+		return true
+	}
+	ast.Inspect(x, visit)
+	return found
+}
+
+// roCond: the function's readonly-if condition evaluated at entry ("" when there is none).
+func (g *gen) roCond() string {
+	if g.con == nil || g.con.ReadonlyIf == nil {
+		return ""
+	}
+	if g.roCondTerm == "" {
+		g.roCondTerm = g.specBool(g.entryEnv(g.entry), g.con.ReadonlyIf.Expr)
+	}
+	return g.roCondTerm
+}
+
+// condFramed: heap variables governed by readonly-if (the document heap); everything else is framed unconditionally.
+func (g *gen) condFramed(name string) bool { return g.isDocHeap(name) }
+
+func (g *gen) docHeapNames() []string {
+	t := deref(g.P.candidateNodePtr())
+	st := t.Underlying().(*types.Struct)
+	var out []string
+	for i := 0; i < st.NumFields(); i++ {
+		out = append(out, heapField(t, i))
+	}
+	return append(out, elemHeap(g.P.candidateNodePtr()))
+}
+
+// returnedClosure: v is the result of a static call to a function whose returns are all closures of the same
+// anonymous function (e.g. compare(prefs), isEquals(flip)); that anonymous function is what gets called.
+func returnedClosure(v ssa.Value) *ssa.Function {
+	call, ok := v.(*ssa.Call)
+	if !ok {
+		return nil
+	}
+	f := call.Call.StaticCallee()
+	if f == nil || len(f.Blocks) == 0 {
+		return nil
+	}
+	var found *ssa.Function
+	for _, b := range f.Blocks {
+		if ret, ok := b.Instrs[len(b.Instrs)-1].(*ssa.Return); ok {
+			if len(ret.Results) != 1 {
+				return nil
+			}
+			r := ret.Results[0]
+			if ct, ok := r.(*ssa.ChangeType); ok {
+				r = ct.X
+			}
+			mc, ok := r.(*ssa.MakeClosure)
+			if !ok {
+				if fn, ok := r.(*ssa.Function); ok {
+					if found != nil && found != fn {
+						return nil
+					}
+					found = fn
+					continue
+				}
+				return nil
+			}
+			fn := mc.Fn.(*ssa.Function)
+			if found != nil && found != fn {
+				return nil
+			}
+			found = fn
+		}
+	}
+	return found
+}
+
+// fieldOrigin: v is loaded from a struct field holding a function; returns "Struct.Field".
+func fieldOrigin(v ssa.Value) string {
+	switch x := v.(type) {
+	case *ssa.UnOp:
+		if fa, ok := x.X.(*ssa.FieldAddr); ok {
+			if st, ok := structUnder(fa.X.Type()); ok {
+				if n, ok := deref(fa.X.Type()).(*types.Named); ok {
+					return n.Obj().Name() + "." + st.Field(fa.Field).Name()
+				}
+			}
+		}
+	case *ssa.Field:
+		if st, ok := structUnder(x.X.Type()); ok {
+			if n, ok := x.X.Type().(*types.Named); ok {
+				return n.Obj().Name() + "." + st.Field(x.Field).Name()
+			}
+		}
+	}
+	return ""
 }
